@@ -18,6 +18,7 @@ import (
 	"strings"
 	"sync"
 	"sync/atomic"
+	"time"
 	"unsafe"
 
 	"github.com/segmentio/encoding/json"
@@ -361,6 +362,72 @@ func opsFor(prefix string, t reflect.Type, v reflect.Value, bigMap map[string]an
 	}
 }
 
+// waitOrDeadlock waits for the goroutines of the concurrent phase. Every five seconds it looks at
+// the goroutine dump: when every unfinished goroutine of the phase is parked on a lock,
+// semaphore or channel in two consecutive dumps, in the same place, nothing in the process can
+// release them (the rest of the process is this function and the watchdog): a deadlock. The
+// verdict rests on the goroutine states, not on the time that passed.
+func waitOrDeadlock(c *core.Case, done *sync.WaitGroup, G int) {
+	fin := make(chan struct{})
+	go func() { done.Wait(); close(fin) }()
+	prev := ""
+	for {
+		select {
+		case <-fin:
+			return
+		case <-time.After(5 * time.Second):
+		}
+		buf := make([]byte, 4<<20)
+		buf = buf[:runtime.Stack(buf, true)]
+		var parked []string
+		running := 0
+		for _, g := range strings.Split(string(buf), "\n\n") {
+			if !strings.Contains(g, "mon/c09.runCase.func") || strings.Contains(g, "waitOrDeadlock") {
+				continue
+			}
+			head := g[:strings.IndexByte(g+"\n", '\n')]
+			blocked := false
+			for _, st := range []string{"[sync.Mutex.Lock", "[sync.RWMutex.Lock", "[sync.RWMutex.RLock", "[semacquire", "[sync.Cond.Wait", "[chan receive", "[chan send", "[select"} {
+				if strings.Contains(head, st) {
+					blocked = true
+				}
+			}
+			if !blocked {
+				running++
+				continue
+			}
+			// goroutine number + the frames (without arguments and addresses)
+			var frames []string
+			for _, ln := range strings.Split(g, "\n")[1:] {
+				if !strings.HasPrefix(ln, "\t") {
+					if i := strings.IndexByte(ln, '('); i > 0 {
+						ln = ln[:i]
+					}
+					frames = append(frames, ln)
+				}
+			}
+			parked = append(parked, head[:strings.IndexByte(head, '[')]+strings.Join(frames, "<"))
+		}
+		sort.Strings(parked)
+		cur := strings.Join(parked, "\n")
+		if running == 0 && len(parked) > 0 && cur == prev {
+			lib := ""
+			for _, f := range strings.FieldsFunc(cur, func(r rune) bool { return r == '<' || r == '\n' }) {
+				if strings.HasPrefix(f, "github.com/segmentio/encoding/") {
+					lib = f
+					break
+				}
+			}
+			c.Violation("concurrent|"+lib, "deadlock", fmt.Sprintf("%d of %d goroutines of the concurrent phase are parked for good (same place in two dumps 5 s apart, none runnable): %s", len(parked), G, clip(cur, 1500)), nil)
+			os.Exit(3) // the goroutines cannot be recovered; the supervisor continues behind this case
+		}
+		prev = cur
+		if running > 0 {
+			prev = ""
+		}
+	}
+}
+
 // otherCaseDoc renders v with the reference implementation and rewrites every object key to upper
 // case (every third one to a key no field has).
 func otherCaseDoc(v any) []byte {
@@ -455,6 +522,55 @@ func runCase(c *core.Case) {
 		ops = append(ops, opsFor(fmt.Sprintf("t%d:", k), t, v, bigMap)...)
 		tnames = append(tnames, t.String())
 	}
+	// a type none of the three packages can represent: every entry point fails or panics on it
+	// (the panics are recovered), whatever it holds at that moment - locks included - must be
+	// released for the other callers
+	{
+		bt := reflect.StructOf([]reflect.StructField{
+			{Name: fmt.Sprintf("Bs%dc%d", c.Seed, c.Index), Type: reflect.TypeOf(int64(0)), Tag: `json:"a" thrift:"1"`},
+			{Name: "C", Type: reflect.TypeOf(make(chan int)), Tag: `json:"c" thrift:"2"`},
+		})
+		bv := reflect.New(bt).Elem()
+		failing := func(name string, f func() error) op {
+			return op{name: "bad:" + name, run: func() (h uint64) {
+				defer func() {
+					if r := recover(); r != nil {
+						h = core.HashString("panic:" + core.PanicSig(r))
+					}
+				}()
+				if err := f(); err != nil {
+					return core.HashString("err:" + err.Error())
+				}
+				return 1
+			}}
+		}
+		ops = append(ops,
+			failing("proto.TypeOf(unsupported)", func() error { proto.TypeOf(bt); return nil }),
+			failing("proto.Marshal(unsupported)", func() error { _, err := proto.Marshal(bv.Interface()); return err }),
+			failing("proto.Unmarshal(unsupported)", func() error { return proto.Unmarshal([]byte{8, 1}, reflect.New(bt).Interface()) }),
+			failing("thrift.Marshal(unsupported)", func() error { _, err := thrift.Marshal(tCmp, bv.Interface()); return err }),
+			failing("thrift.Unmarshal(unsupported)", func() error { return thrift.Unmarshal(tBin, []byte{0}, reflect.New(bt).Interface()) }),
+			failing("json.Marshal(unsupported)", func() error { _, err := json.Marshal(bv.Interface()); return err }),
+			failing("json.Unmarshal(unsupported)", func() error { return json.Unmarshal([]byte(`{"a":1,"c":2}`), reflect.New(bt).Interface()) }),
+			// encoders that fail in the middle of a sorted map, holding pooled scratch space
+			failing("json.Marshal(map with unsupported value)", func() error {
+				_, err := json.Marshal(map[string]any{"a": 1, "m": map[string]any{"x": 1, "y": make(chan int), "z": 3}, "z": "s"})
+				return err
+			}),
+			failing("json.Marshal(map with invalid RawMessage)", func() error {
+				_, err := json.Marshal(map[string]json.RawMessage{"a": json.RawMessage(`1`), "b": json.RawMessage(`{`), "c": json.RawMessage(`[2]`)})
+				return err
+			}),
+			failing("json.Marshal(nested maps)", func() error {
+				b, err := json.Marshal(map[string]any{"x": map[string]any{"x": map[string]any{"y": 1}, "y": 1}, "k": map[string]string{"b": "1", "a": "2"}, "l": map[string][]string{"q": {"1"}, "p": nil}})
+				if err == nil && string(b) != `{"k":{"a":"2","b":"1"},"l":{"p":null,"q":["1"]},"x":{"x":{"y":1},"y":1}}` {
+					return fmt.Errorf("wrong output %s", b)
+				}
+				return err
+			}),
+		)
+		tnames = append(tnames, bt.String())
+	}
 	// 2. the schedule: G goroutines, each running all calls in its own order, released together
 	G := []int{2, 4, 8, 16, 32}[r.Intn(5)]
 	procs := []int{2, 4, 8, 16}[r.Intn(4)]
@@ -501,7 +617,7 @@ func runCase(c *core.Case) {
 		}(g)
 	}
 	start.Done()
-	done.Wait()
+	waitOrDeadlock(c, &done, G)
 	// 3. verdicts
 	w := map[string]any{"types": tnames, "goroutines": G, "gomaxprocs": procs}
 	for i := range ops {
